@@ -30,7 +30,7 @@ ASSUMPTIONS = [
     "under the legacy C locale the stdin path is compared only for ASCII documents; the API string paths are compared for all documents",
     "with diagnostics options, log lines on stdout/stderr are ignored; failure lines, exit status and fixed bytes must be identical",
 ]
-PROBES = ["cmp:blank-via-api", "cmp:diagnostics-under-fault", "cmp:file-vs-stdin", "cmp:file-vs-scan_string", "cmp:file-vs-scan_path", "cmp:inplace-vs-fix_string", "cmp:diagnostics", "locale_C", "non_ascii_doc", "crlf_doc", "stdin_split_multibyte", "stdin_chunk_1"]
+PROBES = ["cmp:file-vs-stdin-under-fault", "cmp:blank-via-api", "cmp:diagnostics-under-fault", "cmp:file-vs-stdin", "cmp:file-vs-scan_string", "cmp:file-vs-scan_path", "cmp:inplace-vs-fix_string", "cmp:diagnostics", "locale_C", "non_ascii_doc", "crlf_doc", "stdin_split_multibyte", "stdin_chunk_1"]
 
 EDGE = ["edge_crlf", "edge_crlf_noeol", "edge_lone_cr", "edge_mixed_eol", "edge_bom", "edge_utf8_2", "edge_utf8_3", "edge_utf8_4", "edge_utf8_noeol", "edge_nbsp", "edge_formfeed", "edge_seps_tail", "edge_u2028", "edge_fs_gs_rs", "edge_one_line", "edge_one_line_noeol", "ws_no_eol", "ws_trailing_eof", "ws_only_newlines", "ws_tabs", "ws_blank_end", "code_dollar", "code_dollar", "in_bare_url", "lrd_quote_unfinished", "lrd_list_unfinished", "lrd_quote_nested", "lrd_partial_eof", "lrd_partial_eof2", "bq_list", "edge_long_line", "edge_big_utf8_3", "edge_big_utf8_2", "edge_big_utf8_4", "ul_mixed", "ws_long", "vp_and_builtin", "pr_good", "pr_bad", "fm_valid"]
 
@@ -175,7 +175,7 @@ def generate(rng, tier, index):
     selection = rng.randrange(len(SELECTIONS))
     diag = rng.randrange(len(DIAG))
     chunk = rng.choice([1, 1, 2, 3, 5, 16, 64, 4096, 8192, 65536])
-    return {
+    scenario = {
         "cls": [rng.choice([0, 1, 2, 3, 101]), locale],
         "world": dict(workload.draw_world(rng, copy_emulation=False)),
         "label": label,
@@ -188,6 +188,19 @@ def generate(rng, tier, index):
         "raw_newlines": rng.random() < 0.5,
         "name": rng.choice(["doc.md", "sub/doc.md", "a b.md"]),
     }
+    # a quarter of the scenarios: the same contained application error (rule callback or
+    # parser) met through the file and through the standard-input entry point
+    if rng.random() < 0.25:
+        entry = rng.choice(
+            [
+                {"site": "parse", "ord": 1, "act": "badtok"},
+                {"site": "cb/md047/next_line", "ord": 1, "act": "raise", "exc": "RuntimeError"},
+                {"site": "cb/md018/next_token", "ord": 1, "act": "raise_after", "exc": "IndexError"},
+                {"site": "cb/md041/starting_new_file", "ord": 1, "act": "raise", "exc": "RuntimeError"},
+            ]
+        )
+        scenario["entry_fault"] = {"entry": entry, "coe": rng.random() < 0.7}
+    return scenario
 
 
 def _text(sc):
@@ -267,6 +280,29 @@ def evaluate(sc):
                 differ("file-vs-stdin", got, ref_tuples, {"exit": [view.exit, ref_view.exit], "stderr": view.stderr[-300:], "exc": view.exc, "chunks": sc["stdin_chunks"]})
             if reply.get("tmp"):
                 out.append(violation("C16/spool-left", "C16/spool-left|stdin", {"tmp": sorted(reply["tmp"])}))
+    # --- the same contained application error through file and stdin ------------
+    if sc.get("entry_fault") and (not locale_c or sc["ascii"]):
+        fault = sc["entry_fault"]
+        flags = (["--continue-on-error"] if fault["coe"] else []) + list(cli_flags)
+        by_file = _req(sc, {"kind": "cli", "argv": flags + ["scan", name]})
+        by_file["plan"] = [dict(fault["entry"], file=name, op=0)]
+        by_stdin = _req(sc, {"kind": "cli", "argv": flags + ["scan-stdin"], "stdin_b64": sc["doc"], "stdin_chunks": sc["stdin_chunks"], "stdin_buf": sc["stdin_buf"]}, with_file=False)
+        by_stdin["plan"] = [dict(fault["entry"], file="<stdin>", op=0)]
+        file_reply, stdin_reply = run(by_file, cls), run(by_stdin, cls)
+        if done(file_reply) and done(stdin_reply):
+            if file_reply["result"].get("fired") and stdin_reply["result"].get("fired"):
+                stats["cmp:file-vs-stdin-under-fault"] += 1
+                file_view, stdin_view = OpView(file_reply["result"]["ops"][0]), OpView(stdin_reply["result"]["ops"][0])
+                got, want = sorted(stdin_view.fail_tuples()), sorted(file_view.fail_tuples())
+                if stdin_view.exit != file_view.exit or got != want or bool(stdin_view.exc) != bool(file_view.exc):
+                    differ(
+                        "file-vs-stdin-under-fault",
+                        got,
+                        want,
+                        {"exit": [stdin_view.exit, file_view.exit], "fault": fault, "stderr_stdin": stdin_view.stderr[-300:], "stderr_file": file_view.stderr[-300:], "exc": [stdin_view.exc, file_view.exc]},
+                    )
+            else:
+                stats["entry_fault_not_fired"] += 1
     # --- API scan_string ---------------------------------------------------------
     text = _text(sc)
     if text is not None and text.strip():
@@ -440,6 +476,10 @@ def reductions(sc):
     if sc["stdin_chunks"] != [4096]:
         candidate = copy.deepcopy(sc)
         candidate["stdin_chunks"] = [4096]
+        yield candidate
+    if sc.get("entry_fault"):
+        candidate = copy.deepcopy(sc)
+        del candidate["entry_fault"]
         yield candidate
     if sc["name"] != "doc.md":
         candidate = copy.deepcopy(sc)
